@@ -47,3 +47,18 @@ CORNERS = [
      'delta': [['s0', 'ε', 'ε', [['s0', 'x'], ['s1', 'ε']]], ['s1', 'b', 'x', [['s1', 'ε']]], ['s1', 'a', 'ε', [['s2', 'ε']]]],
      'q0': 's0', 'F': ['s2'], 'eps': 'ε'},
 ]
+
+
+def needle_pda(rng, depth=None):
+    """A PDA whose epsilon-closure is an infinite binary tree of stacks and whose only accepting computations pop one
+    particular pattern: whether it is found below the iteration limit depends on the order in which the closure is explored."""
+    depth = depth or rng.randint(3, 7)
+    pat = [rng.choice('xy') for _ in range(depth)]
+    e = 'ε'
+    Q = ['s0'] + ['s%d' % i for i in range(1, depth + 1)]
+    delta = [['s0', e, e, [['s0', 'x'], ['s0', 'y']]]]
+    for i, c in enumerate(pat):
+        delta.append([Q[i], e, c, [[Q[i + 1], e]]])
+    if rng.random() < 0.5:
+        delta.append([Q[-1], 'a', e, [[Q[-1], e]]])
+    return {'kind': 'pda', 'Q': Q, 'Sigma': ['a'], 'Gamma': ['x', 'y'], 'delta': delta, 'q0': 's0', 'F': [Q[-1]], 'eps': e}
